@@ -8,6 +8,7 @@ CONSTANTS
   MaxOps = 10
   WriteSets <- WSline
   SameVersionChains = FALSE
+  TrackLineage <- TrueConst
 VIEW genview
 INVARIANTS EmitInv
 CHECK_DEADLOCK FALSE
